@@ -1,6 +1,8 @@
 import RpmVerif.Lemmas.Verify
 import RpmVerif.Lemmas.PgpVerifier
 import RpmVerif.Spec.Verify
+import RpmVerif.Lemmas.PgpParse
+import RpmVerif.Model.Sign
 /-!
 # C02 — signature verification never succeeds without a verified signature
 
@@ -515,6 +517,184 @@ theorem pgp_verifier_unparsable (data sig : Bytes) (h : E.issuers sig = none) :
 
 end pgp
 
+/-! ## `Verifier::parse_signature`: framing → the FIRST packet that parses as a signature (gap G3)
+
+`Pgp.parseSignature P blob` (Model/PgpFraming.lean) is `split_packets(blob)?` followed by `find_map` over the packets with the
+`pgp` crate's per-packet parser `P` as a PARAMETER. Everything below holds for EVERY parser and EVERY blob. -/
+
+section parse
+open RpmVerif.Pgp
+variable {σ : Type} (P : Bytes → Option σ)
+
+/-- **`NoSignatureFound` exactly when the framing is broken or no packet parses as a signature** -/
+theorem parse_none_iff (blob : Bytes) :
+    Pgp.parseSignature P blob = none ↔
+      splitPackets blob = none ∨ ∃ ps, splitPackets blob = some ps ∧ ∀ p ∈ ps, P p = none := by
+  unfold Pgp.parseSignature
+  cases hs : splitPackets blob with
+  | none => simp
+  | some ps => simp [List.findSome?_eq_none_iff]
+
+/-- **which signature it is**: the result is `s` exactly when the blob is well framed, `s` is what the parser makes of
+some packet `p`, and NO packet before `p` parses as a signature — whatever comes after `p` -/
+theorem parse_some_iff (blob : Bytes) (s : σ) :
+    Pgp.parseSignature P blob = some s ↔
+      ∃ pre p post, splitPackets blob = some (pre ++ p :: post) ∧ (∀ q ∈ pre, P q = none) ∧ P p = some s := by
+  unfold Pgp.parseSignature
+  cases hs : splitPackets blob with
+  | none => simp
+  | some ps =>
+    simp only [List.findSome?_eq_some_iff, Option.some.injEq]
+    constructor
+    · rintro ⟨l1, a, l2, rfl, ha, hl⟩; exact ⟨l1, a, l2, rfl, hl, ha⟩
+    · rintro ⟨l1, a, l2, rfl, hl, ha⟩; exact ⟨l1, a, l2, rfl, ha, hl⟩
+
+/-- a blob that IS one packet (its header declares its whole length) which the parser reads as a signature: that
+signature — what `Signer::sign` output must satisfy for `signature_key_ids` / `verify` / the builder to see it -/
+theorem parse_of_single_packet {p : Bytes} {h b : Nat} {s : σ} (hl : packetLens p = some (h, b))
+    (hlen : h + b = p.length) (hp : P p = some s) : Pgp.parseSignature P p = some s := by
+  unfold Pgp.parseSignature
+  rw [split_single hl hlen]
+  simp [hp]
+
+/-- a leading packet that does not parse as a signature (another packet type, or garbage in a well-formed frame) is
+skipped SILENTLY: the result is that of the rest of the blob -/
+theorem leading_packet_skipped {j rest : Bytes} {h b : Nat} (hl : packetLens (j ++ rest) = some (h, b))
+    (hlen : h + b = j.length) (hj : P j = none) : Pgp.parseSignature P (j ++ rest) = Pgp.parseSignature P rest := by
+  unfold Pgp.parseSignature
+  rw [split_cons hl hlen]
+  cases splitPackets rest with
+  | none => rfl
+  | some ps => simp [hj]
+
+/-- **the packets behind the first signature packet are never looked at** (packet-list form): two blobs whose packet
+lists agree up to and including the first packet that parses as a signature have the same result, and the parser is
+called on exactly that common part — whatever follows (a second signature, other packets, any well-framed bytes) is
+neither parsed nor authenticated by `verify`, `signature_key_ids` or the builder -/
+theorem trailing_packets_ignored {blob blob' : Bytes} {pre post post' : List Bytes} {p : Bytes} {s : σ}
+    (hb : splitPackets blob = some (pre ++ p :: post)) (hb' : splitPackets blob' = some (pre ++ p :: post'))
+    (hpre : ∀ q ∈ pre, P q = none) (hp : P p = some s) :
+    Pgp.parseSignature P blob = some s ∧ Pgp.parseSignature P blob' = some s
+      ∧ parserCalls P blob = pre ++ [p] ∧ parserCalls P blob' = pre ++ [p] :=
+  ⟨(parse_some_iff P blob s).mpr ⟨pre, p, post, hb, hpre, hp⟩, (parse_some_iff P blob' s).mpr ⟨pre, p, post', hb', hpre, hp⟩,
+   by unfold parserCalls; rw [hb]; exact consulted_of_hit hpre hp,
+   by unfold parserCalls; rw [hb']; exact consulted_of_hit hpre hp⟩
+
+/-- … byte form, for a blob that starts with the signature packet: ANY well-framed tail leaves the result unchanged and
+is never shown to the parser -/
+theorem trailing_bytes_ignored {p tail : Bytes} {h b : Nat} {s : σ} (hl : packetLens (p ++ tail) = some (h, b))
+    (hlen : h + b = p.length) (hp : P p = some s) (ht : (splitPackets tail).isSome = true) :
+    Pgp.parseSignature P (p ++ tail) = some s ∧ parserCalls P (p ++ tail) = [p] := by
+  obtain ⟨ts, hts⟩ := Option.isSome_iff_exists.mp ht
+  have hs : splitPackets (p ++ tail) = some ([] ++ p :: ts) := by rw [split_cons hl hlen, hts]; rfl
+  have := trailing_packets_ignored P hs hs (fun _ h => by cases h) hp
+  exact ⟨this.1, this.2.2.1⟩
+
+/-- … but the tail must be well framed: trailing bytes that are not a sequence of packets make the whole blob
+`NoSignatureFound`, although the signature packet in front is intact -/
+theorem trailing_garbage_refused {p tail : Bytes} {h b : Nat} (hl : packetLens (p ++ tail) = some (h, b))
+    (hlen : h + b = p.length) (ht : splitPackets tail = none) : Pgp.parseSignature P (p ++ tail) = none := by
+  unfold Pgp.parseSignature
+  rw [split_cons hl hlen, ht]; rfl
+
+end parse
+
+section pgpParsed
+open RpmVerif.Pgp
+variable {K σ : Type} (E : PgpPkt K σ) (ring : KeyRing K)
+
+/-- the keys `Verifier::verify` may try for a PARSED signature `s` (as `Selected`, on the signature packet) -/
+def SelectedP (s : σ) (k : K) : Prop :=
+  match E.issuers s with
+  | [] => k = ring.primary
+  | ids => (k = ring.primary ∧ E.kid ring.primary ∈ ids) ∨ (k ∈ ring.subkeys ∧ E.kid k ∈ ids)
+
+/-- **soundness of rpm-rs's verifier down to the packet**: success ⇒ the blob is well framed, and the FIRST packet `p` the
+`pgp` parser reads as a signature (no packet before it does) yields a signature `s` that some selected key of the ring
+cryptographically accepts over the FULL data. The accepted signature is a function of `p`'s bytes alone. -/
+theorem pgp_verifier_sound_parsed (data blob : Bytes) (h : (pgpVerifierVerifyP E ring data blob).1 = .ok ()) :
+    ∃ pre p post s k, splitPackets blob = some (pre ++ p :: post) ∧ (∀ q ∈ pre, E.parsePkt q = none)
+      ∧ E.parsePkt p = some s ∧ SelectedP E ring s k ∧ E.early k s = false ∧ E.check k data s = true := by
+  unfold pgpVerifierVerifyP at h
+  cases hp : Pgp.parseSignature E.parsePkt blob with
+  | none => rw [hp] at h; cases h
+  | some s =>
+    rw [hp] at h
+    obtain ⟨pre, p, post, hs, hpre, hpp⟩ := (parse_some_iff E.parsePkt blob s).mp hp
+    obtain ⟨k, hsel, he, hc⟩ := pgp_verifier_sound (E.envAt s) ring data blob h
+    refine ⟨pre, p, post, s, k, hs, hpre, hpp, ?_, he, hc⟩
+    unfold Selected at hsel
+    unfold SelectedP
+    change (match some (E.issuers s) with
+      | none => False
+      | some [] => k = ring.primary
+      | some ids => (k = ring.primary ∧ E.kid ring.primary ∈ ids) ∨ (k ∈ ring.subkeys ∧ E.kid k ∈ ids)) at hsel
+    cases hi : E.issuers s with
+    | nil => rw [hi] at hsel; exact hsel
+    | cons i is => rw [hi] at hsel; exact hsel
+
+/-- broken framing, or no packet that parses as a signature: `NoSignatureFound` before anything is read or tried -/
+theorem pgp_verifier_no_signature (data blob : Bytes)
+    (h : splitPackets blob = none ∨ ∃ ps, splitPackets blob = some ps ∧ ∀ p ∈ ps, E.parsePkt p = none) :
+    pgpVerifierVerifyP E ring data blob = (.err "nosig", []) := by
+  unfold pgpVerifierVerifyP
+  rw [(parse_none_iff E.parsePkt blob).mpr h]
+
+/-- **the verdict ignores everything behind the first signature packet**: same packets up to and including the first
+one that parses as a signature ⇒ same verdict, same attempts -/
+theorem pgp_verifier_ignores_trailing (data : Bytes) {blob blob' : Bytes} {pre post post' : List Bytes} {p : Bytes} {s : σ}
+    (hb : splitPackets blob = some (pre ++ p :: post)) (hb' : splitPackets blob' = some (pre ++ p :: post'))
+    (hpre : ∀ q ∈ pre, E.parsePkt q = none) (hp : E.parsePkt p = some s) :
+    pgpVerifierVerifyP E ring data blob = pgpVerifierVerifyP E ring data blob' := by
+  have := trailing_packets_ignored E.parsePkt hb hb' hpre hp
+  exact pgpVerifierVerifyP_same_parse E ring data blob blob' (by rw [this.1, this.2.1])
+
+/-- the packet-level model is the blob-level model (`pgpVerifierVerify`, all theorems above) at
+`issuers := fun b => (parseSignature parsePkt b).map issuers` -/
+theorem pgp_verifier_parsed_eq (data blob : Bytes) :
+    pgpVerifierVerifyP E ring data blob = pgpVerifierVerify E.toEnv ring data blob :=
+  pgpVerifierVerifyP_eq_toEnv E ring data blob
+
+end pgpParsed
+
+/-! ### the same composition inside a signature scheme (`signature_key_ids`, `SignatureHeaderBuilder::build`) -/
+section scheme
+open RpmVerif.Pgp RpmVerif.Sign
+
+theorem withParser_framed (S : SigScheme) (P : PktParser) : (S.withParser P).Framed P := fun _ => rfl
+
+/-- **`IssuerOk` from packet-level facts**: if `S.issuer` is `parse_signature` + `issuer()`, every signature the signer
+emits is exactly one packet (its header declares its whole length), and the `pgp` parser reads that packet as a signature
+whose issuer list is the signer's key id, then a fresh signature names exactly its signer — the hypothesis of C10's
+`history_keyids`, reduced to facts about single packets -/
+theorem issuerOk_of_single_packet (S : SigScheme) (P : PktParser) (hf : S.Framed P)
+    (hone : ∀ k m t, ∃ h b, packetLens (S.sign k m t) = some (h, b) ∧ h + b = (S.sign k m t).length)
+    (hparse : ∀ k m t, ∃ s, P.parsePkt (S.sign k m t) = some s ∧ P.issuers s = [S.keyId k]) : S.IssuerOk := by
+  intro k m t
+  obtain ⟨h, b, hl, hlen⟩ := hone k m t
+  obtain ⟨s, hs, hi⟩ := hparse k m t
+  rw [hf, framedIssuer, parse_of_single_packet P.parsePkt hl hlen hs, Option.map_some, hi]
+
+/-- the builder's legacy tag for a one-packet signature: decided by that packet's public-key algorithm -/
+theorem builderTag_of_single_packet (P : PktParser) {sig : Bytes} {h b : Nat} {s : P.σ} (tbl : List (Nat × Nat))
+    (hl : packetLens sig = some (h, b)) (hlen : h + b = sig.length) (hs : P.parsePkt sig = some s) :
+    builderTag P sig tbl = match tbl.lookup (P.pubAlg s) with | some tag => .ok tag | none => .err "keytype" := by
+  unfold builderTag
+  rw [parse_of_single_packet P.parsePkt hl hlen hs]
+  rfl
+
+/-- key ids and builder tag are functions of the first signature packet: what follows it changes neither -/
+theorem scheme_ignores_trailing (P : PktParser) {blob blob' : Bytes} {pre post post' : List Bytes} {p : Bytes} {s : P.σ}
+    (hb : splitPackets blob = some (pre ++ p :: post)) (hb' : splitPackets blob' = some (pre ++ p :: post'))
+    (hpre : ∀ q ∈ pre, P.parsePkt q = none) (hp : P.parsePkt p = some s) (tbl : List (Nat × Nat)) :
+    framedIssuer P blob = some (P.issuers s) ∧ framedIssuer P blob' = some (P.issuers s)
+      ∧ builderTag P blob tbl = builderTag P blob' tbl := by
+  have := trailing_packets_ignored P.parsePkt hb hb' hpre hp
+  refine ⟨by rw [framedIssuer, this.1]; rfl, by rw [framedIssuer, this.2.1]; rfl, ?_⟩
+  unfold builderTag; rw [this.1, this.2.1]
+
+end scheme
+
 /-! ## non-vacuity: concrete packages, hash functions and verifiers -/
 
 section examples
@@ -652,6 +832,80 @@ theorem old_verifier_same_id_subkeys_witness :
     ∧ (∀ k ∈ [3, 27, 17], envEmpty.check k [1, 2, 3] [7] = false)
     ∧ ((pgpVerifierVerifyOld envEmpty ⟨3, [27, 17]⟩ [1, 2, 3] [7]).2.map fun a => (a.key, a.seen, a.ok)) =
         [(27, [1, 2, 3], false), (17, [], true)] := by decide +kernel
+
+/-! ### `parse_signature` (G3): a toy packet parser
+
+A "signature" is an old-format tag-2 packet with a one-octet length (`88 <len> <body>`); the parsed value is the body,
+read as the list of issuer key ids. `b4 …` is a user-id packet, `88 …` with the wrong length byte does not frame. -/
+
+def toyParse : Bytes → Option (List Nat)
+  | 0x88 :: _ :: body => some (body.map UInt8.toNat)
+  | _ => none
+
+/-- keys are numbers, key id = key mod 10; keys 3 and 17 accept every signature except the one naming issuer 9, over the
+data `[1,2,3]` only -/
+def envPkt : PgpPkt Nat (List Nat) where
+  kid := fun k => k % 10
+  parsePkt := toyParse
+  issuers := fun s => s
+  early := fun _ _ => false
+  check := fun k d s => (k == 3 || k == 17) && d == [1, 2, 3] && s != [9]
+
+/-- `[user-id][signature by 3]`: the junk packet in front is skipped, the signature verifies -/
+example : (pgpVerifierVerifyP envPkt ⟨3, [17]⟩ [1, 2, 3] [0xb4, 1, 0x61, 0x88, 1, 3]).1 = .ok () := by decide +kernel
+/-- `[signature naming 5][signature by 3]`: the FIRST signature decides — key 5 is not in the ring -/
+example : (pgpVerifierVerifyP envPkt ⟨3, [17]⟩ [1, 2, 3] [0x88, 1, 5, 0x88, 1, 3]).1 = .err "keynotfound" := by
+  decide +kernel
+/-- the other data: rejected -/
+example : (pgpVerifierVerifyP envPkt ⟨3, [17]⟩ [1, 2, 4] [0x88, 1, 3]).1 = .err "verify" := by decide +kernel
+/-- both ways into `NoSignatureFound` (hypotheses of `parse_none_iff` / `pgp_verifier_no_signature`): broken framing
+behind an intact signature packet, and a well-framed blob without any signature packet -/
+example : Pgp.splitPackets [0x88, 1, 3, 0x00] = none
+    ∧ (pgpVerifierVerifyP envPkt ⟨3, [17]⟩ [1, 2, 3] [0x88, 1, 3, 0x00]).1 = .err "nosig"
+    ∧ Pgp.splitPackets [0xb4, 1, 0x61, 0xca, 0] = some [[0xb4, 1, 0x61], [0xca, 0]]
+    ∧ (pgpVerifierVerifyP envPkt ⟨3, [17]⟩ [1, 2, 3] [0xb4, 1, 0x61, 0xca, 0]).1 = .err "nosig" := by decide +kernel
+/-- hypotheses of `parse_of_single_packet` / `trailing_bytes_ignored` / `leading_packet_skipped` are satisfiable -/
+example : Pgp.packetLens [0x88, 1, 3] = some (2, 1) ∧ toyParse [0x88, 1, 3] = some [3]
+    ∧ Pgp.packetLens ([0x88, 1, 3] ++ [0xb4, 0]) = some (2, 1) ∧ (Pgp.splitPackets [0xb4, 0]).isSome = true
+    ∧ Pgp.packetLens ([0xb4, 1, 0x61] ++ [0x88, 1, 3]) = some (2, 1) ∧ toyParse [0xb4, 1, 0x61] = none := by decide
+
+/-- **trailing packets are ignored — witness**: the signature by key 3, alone, followed by a signature NOBODY accepts
+(issuer 9: `check` refuses it for every key), followed by a user-id packet: the same verdict `Ok` and the same single
+attempt each time — and the parser never saw the trailing packet. What follows the first signature packet of a
+signature blob is neither verified nor reported by `signature_key_ids`. -/
+theorem trailing_packets_witness :
+    (pgpVerifierVerifyP envPkt ⟨3, [17]⟩ [1, 2, 3] [0x88, 1, 3]).1 = .ok ()
+    ∧ (pgpVerifierVerifyP envPkt ⟨3, [17]⟩ [1, 2, 3] [0x88, 1, 3, 0x88, 1, 9]).1 = .ok ()
+    ∧ (pgpVerifierVerifyP envPkt ⟨3, [17]⟩ [1, 2, 3] [0x88, 1, 3, 0xb4, 1, 0x61]).1 = .ok ()
+    ∧ Pgp.parserCalls toyParse [0x88, 1, 3, 0x88, 1, 9] = [[0x88, 1, 3]]
+    ∧ (∀ k ∈ [3, 17], envPkt.check k [1, 2, 3] [9] = false)
+    -- the same two signatures in the other order: rejected (issuer 9 selects no key)
+    ∧ (pgpVerifierVerifyP envPkt ⟨3, [17]⟩ [1, 2, 3] [0x88, 1, 9, 0x88, 1, 3]).1 = .err "keynotfound" := by
+  decide +kernel
+
+/-- a toy scheme over the toy parser: key `k` signs with the one-packet blob `88 01 k`; key id = `[k]` -/
+def toyPkt : Sign.PktParser where
+  σ := Bytes
+  parsePkt := fun p => match p with | 0x88 :: _ :: body => some body | _ => none
+  issuers := fun s => [s]
+  pubAlg := fun s => (s.headD 0).toNat
+
+def toyScheme : Sign.SigScheme :=
+  Sign.SigScheme.withParser
+    { Key := UInt8, decEq := inferInstance, sign := fun k _ _ => [0x88, 1, k], verify := fun _ _ _ => false,
+      issuer := fun _ => none, keyId := fun k => [k], legacyTag := fun _ => 268, b64enc := id, b64dec := some } toyPkt
+
+/-- the hypotheses of `issuerOk_of_single_packet` hold for it, so it yields `IssuerOk` -/
+example : toyScheme.IssuerOk :=
+  issuerOk_of_single_packet toyScheme toyPkt (withParser_framed _ _)
+    (fun _ _ _ => ⟨2, 1, rfl, rfl⟩) (fun k _ _ => ⟨[k], rfl, rfl⟩)
+
+/-- the builder's tag is that of the FIRST signature: `[alg 22][alg 1]` → DSA tag, `[alg 1][alg 22]` → RSA tag, an
+algorithm outside the table → error, no signature packet → `NoSignatureFound` -/
+example : Sign.builderTag toyPkt [0x88, 1, 22, 0x88, 1, 1] = .ok SigTag.RPMSIGTAG_DSA
+    ∧ Sign.builderTag toyPkt [0x88, 1, 1, 0x88, 1, 22] = .ok SigTag.RPMSIGTAG_RSA
+    ∧ Sign.builderTag toyPkt [0x88, 1, 17] = .err "keytype"
+    ∧ Sign.builderTag toyPkt [0xb4, 1, 0x61] = .err "nosig" := by decide +kernel
 
 end examples
 
